@@ -4,7 +4,7 @@
    values, the number of templates and of super / self calls are all unbounded. *)
 From Coq Require Import List NArith Bool Arith Lia.
 Import ListNotations.
-From JV Require Import Model.Inh Spec.InhSpec Proofs.InhProofs.
+From JV Require Import Model.Inh Spec.InhSpec Proofs.InhProofs Model.InhRt Proofs.InhRtProofs.
 
 (* context.blocks[n], built by Context.__init__ and the setdefault/append loop of every
    executed extends, lists the definitions of n from the most- to the least-derived template *)
@@ -64,6 +64,15 @@ Proof.
 Qed.
 Print Assumptions C04_required_enforced.
 
+(* what the model does for {{ super.super...() }} is the composition of the three runtime methods
+   Context.super, BlockReference.super (k times) and BlockReference.__call__ in the stand-alone form
+   that the translator (gen/inh_translate.py, regenerated on every run) proves equal to their
+   current source *)
+Theorem C04_super_is_runtime : forall call B j t b ctx L k,
+  exec_item call B j t (Some b) ctx L (ISuper k) = super_item call B j b ctx k.
+Proof. intros. exact (exec_item_super_rt call B j t b ctx L k). Qed.
+Print Assumptions C04_super_is_runtime.
+
 (* non-vacuity.  t0 extends t1 extends t2:
      t2 = "[" {% block a %}A2{% endblock %} "|" {% for i in [1,2] %}{% block b scoped %}{{ i }}{% endblock %}{% endfor %} "]"
      t1 = {% extends %} junk {% block a %}A1{{ super() }}{% endblock %}
@@ -102,4 +111,20 @@ Example C04_required_middle_example :
       {| t_top := [TItem (IText [91%N]); TItem (IBlock 1%N); TItem (IText [93%N])];
          t_blocks := [(1%N, {| b_scoped := false; b_required := false; b_body := [IText [112%N]] |})] |} ] []
   = Err ERequired.
+Proof. vm_compute. reflexivity. Qed.
+
+(* how the clause "a required block that no descendant overrides fails" reads when the required
+   block is never reached: root = {% block o %}[{% block inner required %}{% endblock %}]{% endblock %},
+   the child overrides only o.  The documentation says a required block "cannot be rendered
+   directly"; the check is made where a block is rendered (C04_required_enforced), and here the
+   definition of inner is never rendered, so the render succeeds with the child's text.  The
+   specification (and the engine) take this reading. *)
+Example C04_required_unreached_example :
+  spec_render 8
+    [ {| t_top := [TExtends None];
+         t_blocks := [(1%N, {| b_scoped := false; b_required := false; b_body := [IText [111%N]] |})] |};
+      {| t_top := [TItem (IBlock 1%N)];
+         t_blocks := [(1%N, {| b_scoped := false; b_required := false; b_body := [IText [91%N]; IBlock 2%N; IText [93%N]] |});
+                      (2%N, {| b_scoped := false; b_required := true; b_body := [] |})] |} ] []
+  = Ok [111%N].
 Proof. vm_compute. reflexivity. Qed.
